@@ -91,88 +91,125 @@ func (i *interpreter) methodOf(t types.Type, name string) (fn value, ptrRecv boo
 
 type jsonField struct {
 	name      string
-	index     int
+	path      []int // field indices from the outer struct down (embedded structs are flattened)
 	typ       types.Type
 	omitEmpty bool
 	quoted    bool
-	embedded  bool
 	tagged    bool
 }
 
+// jsonFields is encoding/json's typeFields: embedded structs without a JSON
+// name are flattened breadth first; among several fields with the same JSON
+// name the shallowest wins, at equal depth a single tagged one wins,
+// otherwise all of them are dropped; the survivors are emitted in index order.
 func jsonFields(st *types.Struct) []jsonField {
-	var out []jsonField
-	for k := 0; k < st.NumFields(); k++ {
-		f := st.Field(k)
-		tag, _ := reflect.StructTag(st.Tag(k)).Lookup("json")
-		if tag == "-" {
-			continue
-		}
-		name, opts, _ := strings.Cut(tag, ",")
-		jf := jsonField{index: k, typ: f.Type(), tagged: name != ""}
-		for _, o := range strings.Split(opts, ",") {
-			switch o {
-			case "omitempty":
-				jf.omitEmpty = true
-			case "string":
-				jf.quoted = true
-			}
-		}
-		if f.Anonymous() && name == "" {
-			ft := f.Type()
-			if p, ok := ft.Underlying().(*types.Pointer); ok {
-				ft = p.Elem()
-			}
-			if _, isStruct := ft.Underlying().(*types.Struct); isStruct && namedKey(ft) != "time.Time" {
-				jf.embedded = true
-				out = append(out, jf)
+	type level struct {
+		st   *types.Struct
+		path []int
+	}
+	var all []jsonField
+	cur := []level{{st, nil}}
+	visited := map[*types.Struct]bool{}
+	for len(cur) > 0 {
+		var next []level
+		for _, lv := range cur {
+			if visited[lv.st] {
 				continue
 			}
+			visited[lv.st] = true
+			for k := 0; k < lv.st.NumFields(); k++ {
+				f := lv.st.Field(k)
+				tag, _ := reflect.StructTag(lv.st.Tag(k)).Lookup("json")
+				if tag == "-" {
+					continue
+				}
+				name, opts, _ := strings.Cut(tag, ",")
+				path := append(append([]int{}, lv.path...), k)
+				jf := jsonField{path: path, typ: f.Type(), tagged: name != ""}
+				for _, o := range strings.Split(opts, ",") {
+					switch o {
+					case "omitempty":
+						jf.omitEmpty = true
+					case "string":
+						jf.quoted = true
+					}
+				}
+				if f.Anonymous() {
+					ft := f.Type()
+					if p, ok := ft.Underlying().(*types.Pointer); ok {
+						ft = p.Elem()
+					}
+					est, isStruct := ft.Underlying().(*types.Struct)
+					if !exported(f.Name()) && !isStruct {
+						continue
+					}
+					if name == "" && isStruct && namedKey(ft) != "time.Time" {
+						next = append(next, level{est, path})
+						continue
+					}
+				} else if !exported(f.Name()) {
+					continue
+				}
+				if name == "" {
+					name = f.Name()
+				}
+				jf.name = name
+				all = append(all, jf)
+			}
 		}
-		if !exported(f.Name()) {
-			continue
-		}
-		if name == "" {
-			name = f.Name()
-		}
-		jf.name = name
-		out = append(out, jf)
+		cur = next
 	}
-	// encoding/json's rule for several fields with the same JSON name at the
-	// same depth: a single tagged one wins, otherwise all of them are dropped
 	byName := map[string][]int{}
-	for k, f := range out {
-		if !f.embedded {
-			byName[f.name] = append(byName[f.name], k)
-		}
+	for k, f := range all {
+		byName[f.name] = append(byName[f.name], k)
 	}
-	drop := map[int]bool{}
+	keep := make([]bool, len(all))
 	for _, ks := range byName {
-		if len(ks) < 2 {
-			continue
+		// dominant field: least depth, then tagged; a tie annihilates the name
+		best := ks[0]
+		tie := false
+		better := func(a, b jsonField) int {
+			if len(a.path) != len(b.path) {
+				if len(a.path) < len(b.path) {
+					return 1
+				}
+				return -1
+			}
+			if a.tagged != b.tagged {
+				if a.tagged {
+					return 1
+				}
+				return -1
+			}
+			return 0
 		}
-		tagged := -1
-		nTagged := 0
-		for _, k := range ks {
-			if out[k].tagged {
-				tagged = k
-				nTagged++
+		for _, k := range ks[1:] {
+			switch better(all[k], all[best]) {
+			case 1:
+				best, tie = k, false
+			case 0:
+				tie = true
 			}
 		}
-		for _, k := range ks {
-			if !(nTagged == 1 && k == tagged) {
-				drop[k] = true
-			}
+		if !tie {
+			keep[best] = true
 		}
 	}
-	if len(drop) > 0 {
-		var kept []jsonField
-		for k, f := range out {
-			if !drop[k] {
-				kept = append(kept, f)
+	var out []jsonField
+	for k, f := range all {
+		if keep[k] {
+			out = append(out, f)
+		}
+	}
+	sort.SliceStable(out, func(a, b int) bool {
+		pa, pb := out[a].path, out[b].path
+		for k := 0; k < len(pa) && k < len(pb); k++ {
+			if pa[k] != pb[k] {
+				return pa[k] < pb[k]
 			}
 		}
-		out = kept
-	}
+		return len(pa) < len(pb)
+	})
 	return out
 }
 
@@ -300,35 +337,36 @@ func (i *interpreter) jsonValue(fr *frame, t types.Type, v value, quoted bool) [
 		s := v.(structure)
 		out := []value{uint8('{')}
 		first := true
-		var emit func(st *types.Struct, s structure)
-		emit = func(st *types.Struct, s structure) {
-			for _, f := range jsonFields(st) {
-				fv := s[f.index]
-				if f.embedded {
-					ft := f.typ
-					if p, ok := ft.Underlying().(*types.Pointer); ok {
-						pv := fv.(*value)
-						if pv == nil {
-							continue
-						}
-						ft, fv = p.Elem(), *pv
+		for _, f := range jsonFields(u) {
+			var fv value = s
+			ft := types.Type(u)
+			skip := false
+			for _, k := range f.path {
+				if p, ok := ft.Underlying().(*types.Pointer); ok {
+					pv := fv.(*value)
+					if pv == nil {
+						skip = true
+						break
 					}
-					emit(ft.Underlying().(*types.Struct), fv.(structure))
-					continue
+					ft, fv = p.Elem(), *pv
 				}
-				if f.omitEmpty && i.jsonIsEmpty(f.typ, fv) {
-					continue
-				}
-				if !first {
-					out = append(out, uint8(','))
-				}
-				first = false
-				out = append(out, i.jsonString(strBytes(f.name))...)
-				out = append(out, uint8(':'))
-				out = append(out, i.jsonValue(fr, f.typ, fv, f.quoted)...)
+				fv = fv.(structure)[k]
+				ft = ft.Underlying().(*types.Struct).Field(k).Type()
 			}
+			if skip {
+				continue
+			}
+			if f.omitEmpty && i.jsonIsEmpty(f.typ, fv) {
+				continue
+			}
+			if !first {
+				out = append(out, uint8(','))
+			}
+			first = false
+			out = append(out, i.jsonString(strBytes(f.name))...)
+			out = append(out, uint8(':'))
+			out = append(out, i.jsonValue(fr, f.typ, fv, f.quoted)...)
 		}
-		emit(u, s)
 		return append(out, uint8('}'))
 	case *types.Slice:
 		xs := v.([]value)
